@@ -760,6 +760,52 @@ def check_skip(ctx):
     ctx.floor('C09.SKIP', n, 2, 'path lookups')
 
 
+def check_lookup_helper(ctx):
+    """The path lookup helper answers only with what the configuration's
+    file search found; otherwise it raises ConfigFilesNotFoundError, which is
+    how load_rules learns that a configured file / directory is missing."""
+    prog = ctx.prog
+    r = roles(ctx)
+    g = r.get_path
+    from ..dte import inline_helpers
+    t = Table(prog, g, inline=inline_helpers(prog, modules={POLICY},
+                                             classes=False), max_depth=3)
+    W = ctx.where(g.module, g.node)
+    bad = None
+    n_ret = n_raise = 0
+    for p in t.paths:
+        if p.outcome.kind == 'raise':
+            cls = t.raised_class(p) or ''
+            if cls.endswith('ConfigFilesNotFoundError'):
+                n_raise += 1
+            continue
+        if p.outcome.kind != 'return' or p.outcome.expr is None:
+            bad = bad or (p, 'can return None')
+            continue
+        n_ret += 1
+        e = p.outcome.expr
+        d = t.en.defs.get(e.id) if isinstance(e, ast.Name) else None
+        found = isinstance(d, ast.Call) and method_call(d, 'find_file')
+        tested = any(c.kind == 'test' and c.pol and isinstance(
+            c.expr, ast.Name) and isinstance(e, ast.Name)
+            and c.expr.id == e.id for c in p.conds)
+        if not (found and tested):
+            bad = bad or (p, 'returns %s, which is not a path the '
+                          'configuration\'s file search found' % U(
+                              t.expand(e))[:60])
+    ok = bad is None and n_ret > 0 and n_raise > 0
+    ctx.ob('C09.SKIP', ok, '%s:%d' % (W.split(':')[0], bad[0].outcome.line)
+           if bad else W, g.qual,
+           'path lookup (%d found / %d not-found paths)' % (n_ret, n_raise),
+           'answers with the located path or raises '
+           'ConfigFilesNotFoundError' if ok else
+           'the path lookup %s: a configured file or directory that does '
+           'not exist is no longer reported as missing, so it is not '
+           'skipped' % (bad[1] if bad else 'never raises '
+                        'ConfigFilesNotFoundError' if not n_raise
+                        else 'never returns'))
+
+
 def check_opts(ctx):
     prog = ctx.prog
     o = prog.options()
@@ -846,5 +892,6 @@ def check(ctx):
     check_dirs(ctx)
     check_walker(ctx)
     check_skip(ctx)
+    check_lookup_helper(ctx)
     check_opts(ctx)
     check_parse(ctx)
